@@ -45,7 +45,12 @@ type Scenario struct {
 	// ReplyOnConn: a thread that owns a connection writes each reply to it, as Manager.Handle does
 	// (the thread plays the connection's handler goroutine), so replies and pushes share the stream
 	ReplyOnConn bool
-	Gen         bool // generated pair scenario (pairs.go): reported in aggregate
+	// ViaHandle: connection-level scenario (handle.go): real Manager.Handle + parser goroutine per
+	// connection under the scheduler, clients talk RESP over the in-memory connection; DBs = number
+	// of databases
+	ViaHandle bool
+	DBs       int
+	Gen       bool // generated pair scenario (pairs.go): reported in aggregate
 }
 
 type opRec struct {
@@ -453,11 +458,20 @@ func worker(tb []byte, progress func()) []byte {
 	sc := findScenario(t.Scenario)
 	var cur *runState
 	mk := func() *explorer.Instance {
+		if sc.ViaHandle {
+			in, rs := mkHandleInstance(sc)
+			cur = rs
+			return in
+		}
 		in, rs := mkInstance(sc)
 		cur = rs
 		return in
 	}
 	e := &explorer.Explorer{Bound: t.Bound, MaxSchedules: t.Max, AutoAdvance: sc.Timed || sc.PubSub, HorizonNs: int64(5 * time.Second)}
+	if sc.ViaHandle {
+		e.Deviations = true
+		e.Shard, e.Of = t.Shard, t.Of
+	}
 	// determinism: the default schedule twice, identical observations
 	// (SPOP / SRANDMEMBER pick by Go map iteration order, which no seam can own without editing the
 	// code: for scenarios using them the schedule shape is compared instead of the replies; the
@@ -495,7 +509,9 @@ func worker(tb []byte, progress func()) []byte {
 			progress()
 		}
 		var vs []cviol
-		if sc.PubSub {
+		if sc.ViaHandle {
+			vs = checkHandle(sc, cur, out)
+		} else if sc.PubSub {
 			vs = checkPubSub(sc, cur, out)
 		} else {
 			vs = checkKV(sc, cur, out)
@@ -544,6 +560,14 @@ func racePass(prop string, reps int) int {
 				continue
 			}
 		} else if only != "" && sc.ID != only {
+			continue
+		}
+		if sc.ViaHandle {
+			raceHandle(sc, reps)
+			fmt.Fprintf(os.Stderr, "VERIF-SCENARIO-DONE %s\n", sc.ID)
+			continue
+		}
+		if false {
 			continue
 		}
 		for r := 0; r < reps; r++ {
@@ -681,7 +705,7 @@ func genRule(prop string) string {
 	if prop == "C13" {
 		return "every unordered pair over the per-type alphabets of multi-key commands and single-key partners on the key triple (k0, k1 same stripe, k2 other shard), one command per thread, from each seed state (pairs.go); linearizability + final state when both commands are of the atomic classes, else deadlock / panic / invariants"
 	}
-	return "every unordered pair of the per-type single-key alphabets (pairs.go), one command per thread on the same key, from each seed state; pairs of two read-only commands skipped; plus BLPOP against every list mutator"
+	return "every unordered pair of the per-type single-key alphabets (pairs.go), one command per thread on the same key, from each seed state (pairs of two reading commands included); plus BLPOP against every list mutator"
 }
 
 // scMatches: the scenarios of a property.  C09 ("each element goes to exactly one popper", lists under
@@ -860,6 +884,14 @@ func main() {
 		if !scMatches(sc, prop) {
 			continue
 		}
+		if sc.ViaHandle {
+			// connection-level scenarios: deviation bound 2, split over 8 workers by first deviation
+			for sh := 0; sh < 8; sh++ {
+				b, _ := json.Marshal(task{Mode: "explore", Scenario: sc.ID, Prop: prop, Bound: 2, Max: maxSched * 2, Shard: sh, Of: 8})
+				tasks = append(tasks, b)
+			}
+			continue
+		}
 		b, _ := json.Marshal(task{Mode: "explore", Scenario: sc.ID, Prop: prop, Bound: bound, Max: maxSched})
 		tasks = append(tasks, b)
 	}
@@ -919,7 +951,29 @@ func main() {
 				if r.Outcomes <= 1 {
 					nonColliding = append(nonColliding, t.Scenario)
 				}
-				perScenario = append(perScenario, map[string]interface{}{"id": t.Scenario, "schedules": r.Schedules, "distinct_outcomes": r.Outcomes, "max_points": r.MaxPoints, "bound_completed": r.Complete})
+				merged := false
+				for _, ps := range perScenario {
+					if ps["id"] == t.Scenario {
+						// another shard of the same scenario
+						ps["schedules"] = ps["schedules"].(int) + r.Schedules
+						if r.Outcomes > ps["distinct_outcomes"].(int) {
+							ps["distinct_outcomes"] = r.Outcomes
+						}
+						if r.MaxPoints > ps["max_points"].(int) {
+							ps["max_points"] = r.MaxPoints
+						}
+						ps["bound_completed"] = ps["bound_completed"].(bool) && r.Complete
+						ps["shards"] = ps["shards"].(int) + 1
+						merged = true
+					}
+				}
+				if !merged {
+					e := map[string]interface{}{"id": t.Scenario, "schedules": r.Schedules, "distinct_outcomes": r.Outcomes, "max_points": r.MaxPoints, "bound_completed": r.Complete, "shards": 1}
+					if t.Of > 1 {
+						e["deviation_bound"] = t.Bound
+					}
+					perScenario = append(perScenario, e)
+				}
 			}
 			if r.Sample != "" && len(samples) < 6 {
 				samples = append(samples, r.Sample)
